@@ -156,13 +156,16 @@ class RefEval:
         out = "".join(letter(EinsumElementwiseAxis(i)) for i in range(out_nd))
         vals = [np.asarray(self(a)) for a in n.args]
         # length of each descriptor = max over operands (others must be 1)
-        lens: dict[Any, int] = {}
+        seen: dict[Any, set[int]] = {}
         for descrs, v in zip(n.access_descriptors, vals):
             for d, l in zip(descrs, v.shape):
-                lens[d] = max(lens.get(d, 1), l) if l != 0 else (
-                    0 if lens.get(d, 1) in (0, 1) else lens[d])
-                if l == 0:
-                    lens[d] = 0
+                seen.setdefault(d, set()).add(int(l))
+        lens: dict[Any, int] = {}
+        for d, ls in seen.items():
+            non1 = ls - {1}
+            if len(non1) > 1:
+                raise RefEvalError("einsum operand lengths inconsistent")
+            lens[d] = non1.pop() if non1 else 1
         ins = []
         bvals = []
         for descrs, v in zip(n.access_descriptors, vals):
